@@ -51,7 +51,7 @@ class Runner:
         self.K = cls["K"]
         self.L = cls["L"]
         tables = dummy_tables(cls["S"], self.kind, tuple(cls["dims"]), masked=True)
-        self.env0 = SimMDP(self.kind, tuple(cls["dims"]), cls["obs_kind"], tables)
+        self.env0 = SimMDP(self.kind, tuple(cls["dims"]), cls["obs_kind"], tables, box_low=float(cls.get("box_low", -1.0)), box_high=float(cls.get("box_high", 1.0)))
         self.acts = all_actions(self.kind, self.comps)
         self.ptype = cls["policy"]
         self.build_error = None
